@@ -117,9 +117,11 @@ def tiled(dump, text, table):
 
 
 def ctx_constant(dump):
-    """Mirror of PegProofs.ctx_constant (C19's class)."""
-    return dump["comments"] is None and all(nd["ws"] is None and nd["skipws"] is None and not nd["eolterm"]
-                                            and nd["kind"] != "KUnord" for nd in dump["nodes"])
+    """Mirror of PegProofs.ctx_constant (C19's class): no node changes the mode, Comment rule absent or one terminal."""
+    cm = dump["comments"]
+    if cm is not None and dump["nodes"][cm]["kind"] not in ("KStr", "KRegex", "KEOF"):
+        return False
+    return all(nd["ws"] is None and nd["skipws"] is None and not nd["eolterm"] for nd in dump["nodes"])
 
 
 def mode_constant(dump):
@@ -150,6 +152,13 @@ CORPUS = [
      "eol": {"Model": 1, "X": 1}, "inputs": ["a x y, z ; a x ;\nz", "a x y ;\n z", "a x\n; z", "z"], "tag": "corpus-eolterm"},
     {"grammar": "Model: ('a' X)*[eolterm] 'z';\nX[ws=' ']: 'x';\n", "opts": {}, "rules": {"X": {"ws": " "}}, "comment": None,
      "eol": {"Model": 1, "X": 0}, "inputs": ["a x z", "a x\nz", "a x a x z"], "tag": "corpus-eolterm-ws-leak"},
+    {"grammar": "Model: 'h' s=Stmt 'body' ls+=Line;\nLine[ws=' \\t']: Stmt;\nStmt: 'set' name=ID '=' v=INT ';';\n", "opts": {},
+     "rules": {"Line": {"ws": " \t"}}, "comment": None, "eol": {"Model": 0, "Line": 0, "Stmt": 0},
+     "inputs": ["h set a = 1 ; body set b = 2 ; set c = 3 ;", "h set a\n= 1 ;\nbody set b = 2 ;", "h set a = 1 ; body set b\n= 2 ;"],
+     "tag": "corpus-alias-modifier"},
+    {"grammar": "Model: p=Pair t=Tight;\nTight[noskipws]: Pair;\nPair: '<' a=ID ':' b=ID '>';\n", "opts": {},
+     "rules": {"Tight": {"skipws": False}}, "comment": None, "eol": {"Model": 0, "Tight": 0, "Pair": 0},
+     "inputs": ["< a : b > <c:d>", "<a:b><c:d>", "< a : b > < c : d >"], "tag": "corpus-alias-noskipws"},
     {"grammar": "Model: xs+=X[','] ';' ys*=ID;\nX: 'x' | INT;\nComment: /\\/\\/.*?$/;\n", "opts": {}, "rules": {}, "comment": "line",
      "inputs": ["x, 1 ,x; a b", "x;", "x ,\n1;// c\n a"], "tag": "corpus-plain-comment"},
 ]
